@@ -20,7 +20,8 @@ TECHNIQUE = "bounded symbolic execution (symx + z3) of the real suppression pred
 LEVEL_TEXT = ("For every warning type/subtype and every suppress list within the bounds z3 shows that MyST's suppression predicate equals the documented relation (entry is the type, "
               "'type.*' or 'type.subtype') and Sphinx's own predicate, and that create_warning, on a real docutils document, returns None and neither appends nor reports anything "
               "exactly when the predicate holds and otherwise reports exactly one message ending in '[type.subtype]', appended iff requested, at the given line; every catalogue "
-              "member is emitted with its tag; emitting call sites exercised by the site families carry catalogue tags and obey suppression.")
+              "member is emitted with its tag; 22 documents (docutils front end) and 9 real Sphinx projects, one per reachable catalogue member, x suppress entry forms: tag emitted, every [myst.*] tag in the "
+              "catalogue, suppression removes it from log and doctree and changes nothing else.")
 LEVEL_NOTE = ("Trusted: symx, z3, real docutils (reporter) underneath, Sphinx's is_suppressed_warning as reference. The static claim 'every call site in the package' is outside "
               "(only executed call sites are observed). Warning types are dot-free, as in the catalogue.")
 BUDGET_S = {"quick": 120, "thorough": 600}
